@@ -673,6 +673,7 @@ func extractC15() *lean {
 	l.def("protocolFields", "List String", leanStrList(protoFields), protoFields)
 	l.def("decryptPALTouches", "List String", leanStrList(palReads), palReads)
 	c15Streams(l)
+	c15Outbound(l)
 	return l
 }
 
